@@ -100,8 +100,16 @@ def ob_buildoptions():
             for i in order:
                 v = vals[names[i]]
                 st.set_option(O.OptionKey(names[i]), v.concretize() if hasattr(v, 'concretize') else (decide(v) if not isinstance(v, (bool, str)) else v))
+            # compiler options of two languages, added in the order the languages were added to the project (a reconfigured directory keeps the old order)
+            for lang in (('c', 'cpp') if corder == 0 else ('cpp', 'c')):
+                for nm in (('std', 'args') if (order[0] % 2 == 0) else ('args', 'std')):
+                    st.add_compiler_option(lang, O.OptionKey(lang + '_' + nm), O.UserStringOption(lang + '_' + nm, 'd', cval) if nm == 'std' else O.UserStringArrayOption(lang + '_' + nm, 'd', []))
             return M.MT._list_buildoptions(types.SimpleNamespace(optstore=st), [])
-        a = build([0, 1, 2]); b = build(permutation(3, 'p'))
+        cval = sym_str(1, 'c_std', alphabet='ab')
+        corder = 0
+        a = build([0, 1, 2])
+        corder = choose(2, 'language order')
+        b = build(permutation(3, 'p'))
         check(len(a) == len(b), 'same number of entries whatever the insertion order')
         for x, y in zip(a, b):
             check(x['name'] == y['name'] and x['section'] == y['section'] and eq(x['value'], y['value']), 'intro-buildoptions entries are in the same order with the same values')
@@ -402,7 +410,7 @@ def obligations(tier):
     return [Obligation('replace-if-different', ob_replace(), dict(old='absent | 0-2 chars over a b newline', new='0-2 chars'), labels=('kept', 'replaced')),
             Obligation('configure-file-untouched', ob_configure_file_untouched(), dict(real='do_conf_file -> do_conf_str -> replace_if_different, twice', format='meson | cmake@', template='0-4 chars over @ K a newline', values='1 char each run, equal or not'),
                        labels=('kept', 'replaced', 'substituted', 'verbatim'), max_paths=2000000),
-            Obligation('buildoptions-order', ob_buildoptions(), dict(options='b_lto b_ndebug b_pie, symbolic values', insertion_order='every permutation'), labels=('done',)),
+            Obligation('buildoptions-order', ob_buildoptions(), dict(options='b_lto b_ndebug b_pie, symbolic values; compiler options c_std c_args cpp_std cpp_args', insertion_order='every permutation of the base options; both language orders, both option orders'), labels=('done',)),
             Obligation('ninja-deps-order', ob_ninja_order(), dict(deps='4: a, ./a, one symbolic of 3 chars over a . /, one of 1 char', orderdeps='3 (1 symbolic)', insertion_order='every permutation of both'), labels=('done',), max_paths=2000000),
             Obligation('optionkey-order', ob_optionkey_order(), dict(keys='2: name 1 char over abc, subproject None | "" | a | b, machine host | build'), labels=('done',)),
             Obligation('env-hash-order', ob_env_hash(), dict(variables='2 set + 2 unset, distinct symbolic names', order='every permutation'), labels=('done',)),
